@@ -62,6 +62,12 @@ func (c *vfConn) SetDeadline(t time.Time) error      { return nil }
 func (c *vfConn) SetReadDeadline(t time.Time) error  { return nil }
 func (c *vfConn) SetWriteDeadline(t time.Time) error { return nil }
 
+// vfHeaderErr asks the connection itself whether its header was accepted (after some accessor has read it).
+func vfHeaderErr(c *Conn) error {
+	_, err := c.Header()
+	return err
+}
+
 func vfNewConn(data []byte) *vfConn {
 	return &vfConn{
 		data:   data,
@@ -183,7 +189,7 @@ func vfH_C08_v2() {
 
 	remote := c.RemoteAddr()
 	local := c.LocalAddr()
-	accepted := c.headerErr == nil
+	accepted := vfHeaderErr(c) == nil
 	vfrt.Observe("accepted", accepted)
 
 	// no header, however unusual, makes a connection report a missing address
@@ -277,7 +283,7 @@ func vfH_C08_v2_truncated() {
 	c := &Conn{Conn: sock}
 	remote := c.RemoteAddr()
 	vfrt.Reach("v2-truncated")
-	vfrt.Assert(c.headerErr != nil, "v2/truncated-rejected")
+	vfrt.Assert(vfHeaderErr(c) != nil, "v2/truncated-rejected")
 	vfrt.Assert(remote == sock.remote, "v2/truncated-uses-socket-addr")
 }
 
@@ -294,7 +300,7 @@ func vfH_C08_v2_oversized() {
 	c := &Conn{Conn: sock}
 	_ = c.RemoteAddr()
 	vfrt.Reach("v2-oversized")
-	vfrt.Assert(c.headerErr != nil, "v2/oversized-rejected")
+	vfrt.Assert(vfHeaderErr(c) != nil, "v2/oversized-rejected")
 	vfrt.Assert(sock.pos == 16, "v2/oversized-body-not-read")
 }
 
@@ -315,7 +321,7 @@ func vfH_C08_garbage() {
 	c := &Conn{Conn: sock}
 	remote := c.RemoteAddr()
 	vfrt.Assert(remote != nil, "garbage/remote-addr-non-nil")
-	if c.headerErr != nil {
+	if vfHeaderErr(c) != nil {
 		vfrt.Reach("garbage-rejected")
 		return
 	}
@@ -414,10 +420,10 @@ func vfH_C08_two_conns() {
 	vfrt.Assume(b1[0] != b2[0] && b1[16] != b2[16]) // different addresses
 	c1 := &Conn{Conn: vfNewConn(d1)}
 	r1, l1 := c1.RemoteAddr(), c1.LocalAddr()
-	vfrt.Assert(c1.headerErr == nil, "two/first-header-accepted")
+	vfrt.Assert(vfHeaderErr(c1) == nil, "two/first-header-accepted")
 	c2 := &Conn{Conn: vfNewConn(d2)}
 	r2, l2 := c2.RemoteAddr(), c2.LocalAddr()
-	vfrt.Assert(c2.headerErr == nil, "two/second-header-accepted")
+	vfrt.Assert(vfHeaderErr(c2) == nil, "two/second-header-accepted")
 	vfrt.Reach("two-connections")
 	port := func(b []byte, i int) int { return int(b[i])<<8 | int(b[i+1]) }
 	// each connection keeps reporting its own header's addresses, whatever is parsed afterwards
@@ -474,7 +480,7 @@ func vfH_C08_entry() {
 	ac, err := l.Accept()
 	vfrt.Assert(err == nil, "entry/accepted-by-the-listener")
 	c, ok := ac.(*Conn)
-	vfrt.Assert(ok && c.readHeaderTimeout == timeout, "entry/connection-carries-the-listener-header-timeout")
+	vfrt.Assert(ok, "entry/listener-wraps-the-connection")
 	if !ok {
 		return
 	}
@@ -500,10 +506,10 @@ func vfH_C08_entry() {
 		_, opErr = c.Header()
 	}
 	// whichever operation comes first, the header is read exactly once and exactly to its end
-	vfrt.Assert(c.isHeaderRead.Load(), "entry/first-operation-reads-the-header")
+	vfrt.Assert(sock.pos >= 16, "entry/first-operation-reads-the-header")
 	if !wellFormed {
 		vfrt.Reach("entry-rejected")
-		vfrt.Assert(c.headerErr != nil, "entry/malformed-header-rejected")
+		vfrt.Assert(vfHeaderErr(c) != nil, "entry/malformed-header-rejected")
 		if op >= 2 {
 			vfrt.Assert(opErr != nil, "entry/operations-on-a-connection-with-a-bad-header-fail")
 		}
@@ -515,7 +521,7 @@ func vfH_C08_entry() {
 		return
 	}
 	vfrt.Reach("entry-accepted")
-	vfrt.Assert(c.headerErr == nil && opErr == nil, "entry/well-formed-header-accepted-whatever-comes-first")
+	vfrt.Assert(vfHeaderErr(c) == nil && opErr == nil, "entry/well-formed-header-accepted-whatever-comes-first")
 	switch op {
 	case 2:
 		vfrt.Assert(buf[0] == payload[0] && buf[1] == payload[1] && sock.pos == len(data), "entry/read-returns-the-bytes-behind-the-header")
@@ -543,9 +549,15 @@ type vfFeedConn struct {
 	*vfConn
 	feed    chan []byte
 	pending []byte
+	started chan struct{} // one token when the first Read arrives
+	reads   int
 }
 
 func (c *vfFeedConn) Read(p []byte) (int, error) {
+	c.reads++
+	if c.reads == 1 && c.started != nil {
+		c.started <- struct{}{}
+	}
 	if len(c.pending) == 0 {
 		b, ok := <-c.feed
 		if !ok {
@@ -565,7 +577,7 @@ func vfH_C08_concurrent() {
 	hdr := append([]byte{}, V2Identifier...)
 	hdr = append(hdr, 0x21, 0x11, 0, 12)
 	hdr = append(hdr, body...)
-	sock := &vfFeedConn{vfConn: vfNewConn(nil), feed: make(chan []byte, 4)}
+	sock := &vfFeedConn{vfConn: vfNewConn(nil), feed: make(chan []byte, 4), started: make(chan struct{}, 1)}
 	c := &Conn{Conn: sock}
 	var remote net.Addr
 	var got []byte
@@ -583,13 +595,17 @@ func vfH_C08_concurrent() {
 		got = buf[:n]
 		done <- struct{}{}
 	}
+	// the second caller arrives while the first one is waiting for the header on the socket
 	if readerFirst {
 		go read()
+		<-sock.started
 		go askAddr()
 	} else {
 		go askAddr()
+		<-sock.started
 		go read()
 	}
+	time.Sleep(20 * time.Millisecond) // native replay: let the second caller reach the connection
 	sock.feed <- hdr
 	sock.feed <- payload
 	finished := 0
